@@ -235,6 +235,9 @@ pub fn check(id: &str, tier: Tier) -> i32 {
   });
   run.eval(execs.load(Ordering::Relaxed));
   run.trans(events.load(Ordering::Relaxed));
+  if id == "C12" {
+    loom_models(&run);
+  }
   if capped.load(Ordering::Relaxed) > 0 {
     run.not_exhaustive(&format!("{} harness(es) stopped at the per-harness cap of {} schedules", capped.load(Ordering::Relaxed), max_execs));
   }
@@ -314,4 +317,46 @@ pub fn c03_concurrent(run: &Run, thorough: bool) {
   run.eval(execs.load(Ordering::Relaxed));
   run.trans(events.load(Ordering::Relaxed));
   run.set("concurrent_part", json!({"harnesses": items.len(), "schedules": execs.load(Ordering::Relaxed), "preemption_bound": if thorough { 4 } else { 3 }, "menu": menu.iter().map(|p| progs_str(&[p.clone()])).collect::<Vec<_>>(), "note": "threads allocate from fresh space at odd cursor residues (CAS retry paths) and from recycled segments; every returned handle is checked for the requested capacity and alignment"}));
+}
+
+/// C12, relaxed-memory part: loom models of the bump cursor and the reference counter (built by
+/// bin/check from /verif/loomcheck against the subject's own `loom` feature).
+fn loom_models(run: &Run) {
+  let Ok(bin) = std::env::var("VERIF_LOOM_BIN") else {
+    run.not_exhaustive("loom harness not available (VERIF_LOOM_BIN unset): sequentially consistent interleavings only");
+    return;
+  };
+  let list = std::process::Command::new(&bin).arg("list").output().expect("loom harness list");
+  let models: Vec<String> = String::from_utf8_lossy(&list.stdout).lines().map(|s| s.to_string()).collect();
+  let mut report = vec![];
+  for m in &models {
+    let out = std::process::Command::new(&bin).arg(m).output().expect("run loom model");
+    let text = format!("{}{}", String::from_utf8_lossy(&out.stdout), String::from_utf8_lossy(&out.stderr));
+    let iters: u64 = text.lines().find_map(|l| l.strip_prefix("ITERATIONS ").and_then(|x| x.trim().parse().ok())).unwrap_or(0);
+    run.eval(iters);
+    run.trans(iters);
+    let ok = out.status.code() == Some(0);
+    report.push(json!({"model": m, "executions": iters, "ok": ok}));
+    if !ok {
+      if out.status.code() != Some(1) {
+        eprintln!("machinery: loom model {} ended with {:?}", m, out.status);
+        std::process::exit(2);
+      }
+      let why = text.lines().rev().find(|l| l.contains("Causality violation") || l.contains("panicked") || l.contains("assertion")).unwrap_or("").to_string();
+      let class = if m.starts_with("recycle") { "recycled-range" } else { "teardown" };
+      run.violation(crate::report::Violation { property: "C12".into(), signature: format!("C12:loom:{}:{}", class, m), message: format!("loom model '{}' found an execution (C11 memory model, orderings as written in the library) in which conflicting accesses are not ordered by happens-before: {}", m, why), replay: json!({"engine": "loom", "model": m}) });
+    }
+  }
+  run.set("loom_models", json!(report));
+  run.assume("loom part: plain layout, Freelist::None (free-list nodes are raw memory and cannot be modelled by loom); 2 threads");
+}
+
+pub fn replay_loom(case: &serde_json::Value) -> i32 {
+  let Ok(bin) = std::env::var("VERIF_LOOM_BIN") else {
+    eprintln!("machinery: VERIF_LOOM_BIN unset (run through bin/check)");
+    return 2;
+  };
+  let m = case["model"].as_str().unwrap_or("");
+  let st = std::process::Command::new(&bin).arg(m).status().expect("run loom model");
+  st.code().unwrap_or(2)
 }
